@@ -216,6 +216,12 @@ func runPlainReader(data []byte, ops []rop) []string {
 			}
 		case 'y': // ReadSigned(w) in plain mode
 			val = hx.HexI(int64(r.ReadSigned(o.w)))
+		case 'r': // ReadRemainingBytes: N = nil, h<hex> = a non-nil slice (tail.go)
+			if rest := r.ReadRemainingBytes(); rest == nil {
+				val = "N"
+			} else {
+				val = "h" + hx.Hex(rest)
+			}
 		}
 		e := 0
 		if r.AccError() != nil {
@@ -452,6 +458,7 @@ func corr(seed uint64, n int, exh int) {
 	corrExt(hx.NewRng(seed^0x13e), n, &id)
 	corrExt2(hx.NewRng(seed^0x13b2), n, &id)
 	corrSweep(hx.NewRng(seed^0x5eeb), &id) // every method at every alignment with every size class: sweep.go
+	corrTail(hx.NewRng(seed^0x7a11), n, &id) // Reader.ReadRemainingBytes, FixedSliceWriter.WriteString: tail.go
 	out.Flush()
 }
 
@@ -591,6 +598,7 @@ func search(seed uint64, n int, exh int) {
 	}
 	evals += searchSweep(hx.NewRng(seed ^ 0x5eeb)) // every method at every alignment with every size class: sweep.go
 	evals += hygiene(seed, n)                      // cross-cutting oracles: hygiene.go
+	evals += searchTail(hx.NewRng(seed^0x7a11), n) // ReadRemainingBytes / WriteString: tail.go
 	fmt.Fprintf(out, "EVALS\t%d\n", evals)
 	out.Flush()
 }
